@@ -308,6 +308,16 @@ func (x *Exec) loopHead(fr *frame, li *loopInfo, st *State) {
 			g := c.Fresh("houdini", SBool)
 			li.prefixGuards[k] = g
 			x.bumpPrefixGuarded(st, k, entryAlloc, g)
+			// weaker variant: except the objects the entry function's contract may write
+			gx := c.Fresh("houdini", SBool)
+			if li.prefixGuardsX == nil {
+				li.prefixGuardsX = map[string]Term{}
+			}
+			li.prefixGuardsX[k] = gx
+			if x.genGuardsX == nil {
+				x.genGuardsX = map[int]Term{}
+			}
+			x.genGuardsX[x.epochCtr] = gx
 		}
 		na := c.Fresh("alloc", SInt)
 		c.AddFact(st.pc, mk(SBool, ">=", na, st.alloc), "alloc monotone")
@@ -446,6 +456,28 @@ func (x *Exec) rootModLocs() []*LocV {
 	return x.rootLocs
 }
 
+// rootExcl lists, as SMT conjuncts over the bound reference r, the objects of heap array key
+// that the entry function may write according to its parameters and contract.
+func (x *Exec) rootExcl(key string) []string {
+	root := x.root
+	if root == nil || root.entrySt == nil {
+		return nil
+	}
+	var excl []string
+	for _, p := range root.fn.Params {
+		if pp := ptrKeyPrefix(p.Type()); pp != "" && strings.HasPrefix(key, pp) {
+			excl = append(excl, fmt.Sprintf("(not (= r %s))", root.params[p.Name()].Term().S))
+		}
+	}
+	// ... and what the contract's frame lists explicitly
+	for _, l := range x.rootModLocs() {
+		if base, _ := l.pathKey(); strings.HasPrefix(key, base) {
+			excl = append(excl, fmt.Sprintf("(not (= r %s))", l.Ref.S))
+		}
+	}
+	return excl
+}
+
 // autoCandidates proposes frame and bound invariants for a loop; they are assumed under
 // guard literals and checked (entry trivially holds by construction, preservation at
 // every back edge) by the Houdini filter in solveAll.
@@ -497,18 +529,7 @@ func (x *Exec) autoCandidates(fr *frame, li *loopInfo, pre, st *State, entryAllo
 				// relative to function entry, except objects reachable as pointer parameters
 				if root := x.root; root != nil && root.entrySt != nil {
 					entArr := x.heapGet(root.entrySt, k, srt)
-					var excl []string
-					for _, p := range root.fn.Params {
-						if pp := ptrKeyPrefix(p.Type()); pp != "" && strings.HasPrefix(key, pp) {
-							excl = append(excl, fmt.Sprintf("(not (= r %s))", root.params[p.Name()].Term().S))
-						}
-					}
-					// ... and except what the contract's frame lists explicitly
-					for _, l := range x.rootModLocs() {
-						if base, _ := l.pathKey(); strings.HasPrefix(key, base) {
-							excl = append(excl, fmt.Sprintf("(not (= r %s))", l.Ref.S))
-						}
-					}
+					excl := x.rootExcl(key)
 					fa := root.entrySt.alloc
 					add("entry-frame "+key, func(s *State) Term {
 						cur := x.heapGet(s, key, srt)
@@ -543,6 +564,34 @@ func (x *Exec) autoCandidates(fr *frame, li *loopInfo, pre, st *State, entryAllo
 				}
 				f := fmt.Sprintf("(forall ((r Int)) (! (=> (<= r %s) (= (select %s r) (select %s r))) :pattern ((select %s r))))",
 					entryAlloc.S, cur.S, preArr.S, cur.S)
+				parts = append(parts, Term{S: f, Sort: SBool, N: 12, UB: -1})
+			}
+			return and(parts...)
+		})
+	}
+	for _, p := range sortedKeys(li.prefixGuardsX) {
+		p := p
+		id := len(x.cands)
+		x.cands = append(x.cands, &candidate{id: id, guard: li.prefixGuardsX[p], text: "late-frame-x " + p, active: true, declAt: len(c.decls)})
+		li.candIDs = append(li.candIDs, id)
+		li.candEval = append(li.candEval, func(s *State) Term {
+			var parts []Term
+			for _, k := range sortedKeys(c.heapKeys) {
+				if !strings.HasPrefix(k, p) || li.headKeys[k] {
+					continue
+				}
+				excl := x.rootExcl(k)
+				if len(excl) == 0 {
+					continue // same as the unrestricted candidate
+				}
+				srt := c.heapKeys[k]
+				cur := x.heapGet(s, k, srt)
+				preArr := x.heapGet(pre, k, srt)
+				if cur.S == preArr.S {
+					continue
+				}
+				f := fmt.Sprintf("(forall ((r Int)) (! (=> (and (<= r %s) %s) (= (select %s r) (select %s r))) :pattern ((select %s r))))",
+					entryAlloc.S, strings.Join(excl, " "), cur.S, preArr.S, cur.S)
 				parts = append(parts, Term{S: f, Sort: SBool, N: 12, UB: -1})
 			}
 			return and(parts...)
@@ -593,6 +642,11 @@ func (x *Exec) autoCandidates(fr *frame, li *loopInfo, pre, st *State, entryAllo
 							add(name+" < "+n2, func(s *State) Term { return c.Cmp(token.LSS, s.cells[k].L[0], s.cells[k2].L[0], pv.T) })
 						}
 					}
+					continue
+				}
+				if isString(v2.T) && len(v2.L) == 1 && k2.a.Comment != "" && !c.BV {
+					n2 := k2.a.Comment
+					add(name+" <= len("+n2+")", func(s *State) Term { return c.le(s.cells[k].L[0], x.strLen(s.cells[k2].L[0])) })
 					continue
 				}
 				if _, isSl := v2.T.Underlying().(*types.Slice); !isSl || len(v2.L) != 4 {
